@@ -48,22 +48,29 @@ def extractWord (s : Bytes) : Option (Bytes × Bytes) :=
 
 def decVal (ds : Bytes) : Nat := ds.foldl (fun a d => 10 * a + (d - 48)) 0
 
+/-- optional sign in front of a number -/
+def splitSign : Bytes → Bool × Bytes
+  | 45 :: t => (true, t)
+  | 43 :: t => (false, t)
+  | s => (false, s)
+
+/-- conversion of the accumulated digits to the target type; `none` = overflow (`failbit`).  Unsigned targets
+accept a minus sign and negate modulo `2^bits`. -/
+def intOfDigits (signed : Bool) (bits : Nat) (neg : Bool) (v : Nat) : Option Int :=
+  if signed then
+    if neg then (if v ≤ 2 ^ (bits - 1) then some (-(v : Int)) else none)
+    else (if v < 2 ^ (bits - 1) then some (v : Int) else none)
+  else
+    if v < 2 ^ bits then some (if neg then (((2 ^ bits - v) % 2 ^ bits : Nat) : Int) else (v : Int)) else none
+
 /-- `is >> x` for an integer `x` of `bits` bits (`num_get::_M_extract_int`, base 10) -/
 def extractInt (signed : Bool) (bits : Nat) (s : Bytes) : Option (Int × Bytes) :=
-  let s := skipWs s
-  let (neg, s) := match s with
-    | 45 :: t => (true, t)
-    | 43 :: t => (false, t)
-    | _ => (false, s)
-  let ds := s.takeWhile isDigit
-  let rest := s.dropWhile isDigit
-  if ds.isEmpty then none else
-  let v := decVal ds
-  if signed then
-    if neg then (if v ≤ 2 ^ (bits - 1) then some (-(v : Int), rest) else none)
-    else (if v < 2 ^ (bits - 1) then some ((v : Int), rest) else none)
-  else
-    if v < 2 ^ bits then some (if neg then (((2 ^ bits - v) % 2 ^ bits : Nat) : Int) else (v : Int), rest) else none
+  let p := splitSign (skipWs s)
+  let ds := p.2.takeWhile isDigit
+  if ds.isEmpty then none
+  else match intOfDigits signed bits p.1 (decVal ds) with
+    | some v => some (v, p.2.dropWhile isDigit)
+    | none => none
 
 /-- state of `num_get::_M_extract_float`: mantissa digit seen, decimal point seen, exponent seen, and "the
 previous character was the exponent letter" (only then a sign is accepted) -/
@@ -315,8 +322,16 @@ def assemble (zero : V) (chunk : Nat) (ncols : Nat) (kept : List (Nat × Int × 
 
 def wrapU64 (x : Int) : Nat := (x % 18446744073709551616).toNat
 
-def mmReadSparse (fixed : Bool) (memLimit : Nat) (vk : ValKind V) (file : Bytes) (rowBeg rowEnd : Int) :
-    Outcome (RawCRS V) :=
+/-- what the sparse `operator()` knows after its checks on banner flags and the size line -/
+structure SparseHeader where
+  sym : Bool
+  n : Int
+  m : Int
+  nnz : Nat
+  body : List Bytes
+
+/-- kind checks, `is >> n >> m >> nnz` (`ptrdiff_t, ptrdiff_t, size_t`), repaired code: size sanity -/
+def mmSparseHeader (fixed : Bool) (vk : ValKind V) (file : Bytes) : Outcome SparseHeader :=
   match mmOpen file with
   | .error => .error
   | .oob => .oob
@@ -325,7 +340,6 @@ def mmReadSparse (fixed : Bool) (memLimit : Nat) (vk : ValKind V) (file : Bytes)
     else if vk.isComplex != h.complex then .error
     else if vk.isIntegral != h.integer then .error
     else
-    -- `is >> n >> m >> nnz` (`ptrdiff_t, ptrdiff_t, size_t`)
     match extractInt true 64 h.sizeLine with
     | none => .error
     | some (n, s) =>
@@ -336,22 +350,31 @@ def mmReadSparse (fixed : Bool) (memLimit : Nat) (vk : ValKind V) (file : Bytes)
     | none => .error
     | some (nnz, _) =>
       if fixed && !(decide (0 ≤ n) && decide (0 ≤ m) && (!h.symmetric || decide (n = m))) then .error
-      else
-      let b := if rowBeg < 0 then 0 else rowBeg
-      let e := if rowEnd < 0 then n else rowEnd
-      if !(decide (0 ≤ b) && decide (e ≤ n) && (!fixed || decide (b ≤ e))) then .error
-      else
-      let chunk := e - b
-      -- `ptr.resize(chunk + 1)`
-      if chunk + 1 < 0 then .error
-      else if (chunk + 1) * 8 > (memLimit : Int) then .error
-      else
-      match parseEntries fixed n m vk nnz.toNat h.body with
-      | .error => .error
-      | .oob => .oob
-      | .ok entries =>
-        if chunk + 1 = 0 then .oob       -- unrepaired code only: `ptr.back()` of an empty vector
-        else assemble vk.zero chunk.toNat (wrapU64 m) (keepEntries h.symmetric b e entries)
+      else .ok ⟨h.symmetric, n, m, nnz.toNat, h.body⟩
+
+/-- `ptr.resize(chunk + 1)`, the entry loop, the assembly -/
+def mmSparseBody (fixed : Bool) (memLimit : Nat) (vk : ValKind V) (h : SparseHeader) (b e : Int) :
+    Outcome (RawCRS V) :=
+  let chunk := e - b
+  if chunk + 1 < 0 then .error
+  else if (chunk + 1) * 8 > (memLimit : Int) then .error
+  else
+  match parseEntries fixed h.n h.m vk h.nnz h.body with
+  | .error => .error
+  | .oob => .oob
+  | .ok entries =>
+    if chunk + 1 = 0 then .oob       -- unrepaired code only: `ptr.back()` of an empty vector
+    else assemble vk.zero chunk.toNat (wrapU64 h.m) (keepEntries h.sym b e entries)
+
+def mmReadSparse (fixed : Bool) (memLimit : Nat) (vk : ValKind V) (file : Bytes) (rowBeg rowEnd : Int) :
+    Outcome (RawCRS V) :=
+  match mmSparseHeader fixed vk file with
+  | .error => .error
+  | .oob => .oob
+  | .ok h =>
+    match rowRange fixed h.n rowBeg rowEnd with
+    | none => .error
+    | some (b, e) => mmSparseBody fixed memLimit vk h b e
 
 end sparse
 
@@ -380,8 +403,12 @@ def denseCells (vk : ValKind V) (n m b e : Int) : Nat → Nat → List Bytes →
 def setAt (l : List V) (a : Int × V) : Option (List V) :=
   if 0 ≤ a.1 ∧ a.1.toNat < l.length then some (l.set a.1.toNat a.2) else none
 
-def mmReadDense (fixed : Bool) (memLimit : Nat) (vk : ValKind V) (file : Bytes) (rowBeg rowEnd : Int) :
-    Outcome (RawDense V) :=
+structure DenseHeader where
+  n : Int
+  m : Int
+  body : List Bytes
+
+def mmDenseHeader (fixed : Bool) (vk : ValKind V) (file : Bytes) : Outcome DenseHeader :=
   match mmOpen file with
   | .error => .error
   | .oob => .oob
@@ -397,25 +424,33 @@ def mmReadDense (fixed : Bool) (memLimit : Nat) (vk : ValKind V) (file : Bytes) 
     | none => .error
     | some (m, _) =>
       if fixed && !(decide (0 ≤ n) && decide (0 ≤ m)) then .error
-      else
-      let b := if rowBeg < 0 then 0 else rowBeg
-      let e := if rowEnd < 0 then n else rowEnd
-      if !(decide (0 ≤ b) && decide (e ≤ n) && (!fixed || decide (b ≤ e))) then .error
-      else
-      let chunk := e - b
-      -- `val.resize(chunk * m)`  (repaired code: overflow of the product is a precondition; it exceeds
-      -- `memLimit` in any case)
-      let sz := chunk * m
-      if sz < 0 then .error
-      else if sz * vk.size > (memLimit : Int) then .error
-      else
-      match denseCells vk n m b e (n * m).toNat 0 h.body with
-      | .error => .error
-      | .oob => .oob
-      | .ok cells =>
-        match foldlOpt setAt (List.replicate sz.toNat vk.zero) cells with
-        | none => .oob
-        | some val => .ok ⟨wrapU64 chunk, wrapU64 m, val⟩
+      else .ok ⟨n, m, h.body⟩
+
+/-- `val.resize(chunk * m)` (repaired code: overflow of the product is a precondition; it exceeds `memLimit`
+in any case), the cell loop -/
+def mmDenseBody (memLimit : Nat) (vk : ValKind V) (h : DenseHeader) (b e : Int) : Outcome (RawDense V) :=
+  let chunk := e - b
+  let sz := chunk * h.m
+  if sz < 0 then .error
+  else if sz * vk.size > (memLimit : Int) then .error
+  else
+  match denseCells vk h.n h.m b e (h.n * h.m).toNat 0 h.body with
+  | .error => .error
+  | .oob => .oob
+  | .ok cells =>
+    match foldlOpt setAt (List.replicate sz.toNat vk.zero) cells with
+    | none => .oob
+    | some val => .ok ⟨wrapU64 chunk, wrapU64 h.m, val⟩
+
+def mmReadDense (fixed : Bool) (memLimit : Nat) (vk : ValKind V) (file : Bytes) (rowBeg rowEnd : Int) :
+    Outcome (RawDense V) :=
+  match mmDenseHeader fixed vk file with
+  | .error => .error
+  | .oob => .oob
+  | .ok h =>
+    match rowRange fixed h.n rowBeg rowEnd with
+    | none => .error
+    | some (b, e) => mmDenseBody memLimit vk h b e
 
 end dense
 
